@@ -1304,23 +1304,26 @@ class ThreadsafeForwardingResult(TestResult):
 
     def _add_result_with_semaphore(self, method, test, *args, **kwargs):
         now = self._now()
+        # The start time and the buffered tags belong to this test only: hand
+        # them over now, so that they cannot leak into a later test if the
+        # target raises.
+        test_start, self._test_start = self._test_start, None
+        test_tags, self._test_tags = self._test_tags, (set(), set())
         self.semaphore.acquire()
         try:
-            self.result.time(self._test_start)
+            self.result.time(test_start)
             self.result.startTest(test)
             self.result.time(now)
             if self._any_tags(self._global_tags):
                 self.result.tags(*self._global_tags)
-            if self._any_tags(self._test_tags):
-                self.result.tags(*self._test_tags)
-            self._test_tags = set(), set()
+            if self._any_tags(test_tags):
+                self.result.tags(*test_tags)
             try:
                 method(test, *args, **kwargs)
             finally:
                 self.result.stopTest(test)
         finally:
             self.semaphore.release()
-        self._test_start = None
 
     def addError(self, test, err=None, details=None):
         self._add_result_with_semaphore(
